@@ -19,3 +19,15 @@ Example C01_example :
   rw_ok w = true /\
   dorewrite rx [mkTlv 4 [9]; mkTlv 5 [1]; mkTlv 0 [7]; mkTlv 1 [97]] (Some w) = Some [mkTlv 4 [9]; mkTlv 0 [7]; mkTlv 1 [120]; mkTlv 200 [1]].
 Proof. vm_compute. split; reflexivity. Qed.
+
+From RSP Require Import Ttl Crypt Packet Choose Proxy Slots_proofs Dup_proofs Reply_proofs Forward_proofs.
+Local Open Scope N_scope.
+
+(* through the handler: the packet placed in a server table is the client's message after exactly the stages
+   listed in `forwarded` (rewriteIn, TTL, User-Name rewrite, CHAP-Challenge completion, new authenticator,
+   User-Password re-encryption, rewriteOut, Message-Authenticator, TTL insertion), serialised under the chosen
+   server's secret with the allocated identifier; C01_rewrite_untouched applies to both rewrite stages *)
+Theorem C01_forward_composition : forall md5 rx cfg fs st h c now rnd s i b,
+  In (OEnq s i b) (snd (radsrv md5 rx cfg fs st h c now rnd)) -> forwarded md5 rx cfg fs st h c rnd s i b.
+Proof. exact forward_composition. Qed.
+Print Assumptions C01_forward_composition.
